@@ -219,6 +219,62 @@ def run_with_deadline(fn, seconds):
         signal.signal(signal.SIGALRM, old)
 
 
+LISTENER_EVENTS = (('callFunction', 'SUM(1)+SUM(2)'), ('callVariable', 'x+x'), ('callCellValue', 'A1+B2'), ('callRangeValue', 'SUM(A1:B2)+SUM(A1:B2)'))
+LISTENER_ACTS = ('resubscribe-self', 'subscribe-successor', 'subscribe-once-self', 'unsubscribe-self', 'unsubscribe-all', 'emit-other',
+                 'set-variable', 'set-function', 'nested-parse', 'raise-unhashable', 'raise-dict', 'raise-noargs')
+
+
+def _throw(e):
+    raise e
+
+
+def listener_case(ev, act, text):
+    """ one evaluation with a listener of `ev` that does `act` on the emitter / parser during the delivery; '' or what went wrong """
+    q = new_parser()
+
+    def lst(*a):
+        {'resubscribe-self': lambda: q.on(ev, lst),
+         'subscribe-successor': lambda: q.on(ev, lambda *a2: None),
+         'subscribe-once-self': lambda: q.once(ev, lst),
+         'unsubscribe-self': lambda: q.off(ev, lst),
+         'unsubscribe-all': lambda: q.off(ev),
+         'emit-other': lambda: q.emit('somethingElse', 1),
+         'set-variable': lambda: q.set_variable('x', 5),
+         'set-function': lambda: q.set_function('G', lambda *a2: 1),
+         'nested-parse': lambda: q.parse('1+1'),
+         'raise-unhashable': lambda: _throw(ValueError([1, 2])),
+         'raise-dict': lambda: _throw(KeyError({'a': 1})),
+         'raise-noargs': lambda: _throw(RuntimeError())}[act]()
+        if callable(a[-1]):
+            a[-1](3)
+    q.on(ev, lst)
+    try:
+        r = run_budgeted(lambda: q.parse(text))
+        return well_formed(r)
+    except Budget:
+        return 'does not terminate within the line budget'
+    except BaseException as ex:
+        return 'parse raised %s' % type(ex).__name__
+
+
+def odd_exceptions():
+    from hotxlfp.formulas import error
+    return [ValueError([1, 2]), KeyError({'a': 1}), TypeError({1, 2}), RuntimeError(), error.XLError(['#N/A']), error.XLError(), OSError(2, 'x')]
+
+
+def raising_case(i, text):
+    exc = odd_exceptions()[i]
+    q = new_parser()
+    q.set_function('F', lambda *a: _throw(exc))
+    try:
+        r = run_budgeted(lambda: q.parse(text))
+        return well_formed(r)
+    except Budget:
+        return 'does not terminate within the line budget'
+    except BaseException as ex:
+        return 'parse raised %s' % type(ex).__name__
+
+
 def check_totality(rng, tier, names=None):
     from hotxlfp import formulas
     pool = value_pool()
@@ -298,11 +354,34 @@ def check_totality(rng, tier, names=None):
                     bad = 'parse raised %s' % type(ex).__name__
                 if bad and len(fails) < 5:
                     fails.append({'formula': text, 'host': 'listener %s: %s %r' % (ev, kind, v), 'detail': bad})
+    # listeners that work on the emitter / the parser while an event is being delivered: subscribe (themselves, a successor),
+    # unsubscribe, subscribe once, emit, register names, evaluate; exceptions with args of every shape
+    for ev, text in LISTENER_EVENTS:
+        for act in LISTENER_ACTS:
+            cases += 1
+            bad = listener_case(ev, act, text)
+            if bad and len(fails) < 5:
+                fails.append({'formula': text, 'listener_case': [ev, act], 'host': 'listener of %s that does %s during the delivery' % (ev, act),
+                              'detail': bad})
+    for i in range(len(odd_exceptions())):
+        for text in ('F()', 'F(1)+1', 'IFERROR(F(),7)', 'SUM(F(),1)'):
+            cases += 1
+            bad = raising_case(i, text)
+            if bad and len(fails) < 5:
+                fails.append({'formula': text, 'raising_case': i, 'host': 'custom function raising %r' % (odd_exceptions()[i],), 'detail': bad})
     return cases, fails
 
 
 def replay_formula(rp):
     """ generic replay of an e2e failure: formula (+ variable bindings by pool index) """
+    if rp.get('listener_case'):
+        bad = listener_case(rp['listener_case'][0], rp['listener_case'][1], rp['formula'])
+        print('listener of %s doing %s during parse(%r): %s' % (rp['listener_case'][0], rp['listener_case'][1], rp['formula'], bad or 'well-formed result'))
+        return bad or {'result': None, 'error': None}
+    if rp.get('raising_case') is not None:
+        bad = raising_case(rp['raising_case'], rp['formula'])
+        print('custom function raising %r in parse(%r): %s' % (odd_exceptions()[rp['raising_case']], rp['formula'], bad or 'well-formed result'))
+        return bad or {'result': None, 'error': None}
     p = new_parser()
     pool = value_pool()
     for i, vi in enumerate(rp.get('binding_idx') or []):
